@@ -82,17 +82,22 @@ class FakeClient:
 
 def task(args):
     """one (module, configs) slice. Returns a plain dict (counts, diffs, samples)."""
-    repo, name, cfgs, seed, per_item, exe, malformed = args
+    repo, name, cfgs, seed, per_item, exe, malformed = args[:7]
+    opts = args[7] if len(args) > 7 else {}
     res = {"module": name, "cases": 0, "lines": 0, "tags": {}, "diffs": [], "keys": [], "samples": [], "error": None,
            "structs": 0, "methods": 0, "unsupported_checked": 0}
     try:
-        _task(repo, name, cfgs, seed, per_item, exe, malformed, res)
+        _task(repo, name, cfgs, seed, per_item, exe, malformed, res, opts)
     except Exception:
         res["error"] = traceback.format_exc()
     return res
 
 
-def _task(repo, name, cfgs, seed, per_item, exe, malformed, res):
+def _task(repo, name, cfgs, seed, per_item, exe, malformed, res, opts=None):
+    """opts (C13): {"marker": bool — one more value per (item, configuration) in which every attribute is set,
+    non-default and distinguishable (schema_c13_focus.Marker); "focus": result of schema_c13_focus.reader_focus when the
+    two readings of the definition disagree — items in its closure get "focus_reps" more random values; "shrink": bool}"""
+    opts = opts or {}
     sys.path.insert(0, repo)
     import importlib, logging
     logging.disable(logging.CRITICAL)
@@ -123,15 +128,32 @@ def _task(repo, name, cfgs, seed, per_item, exe, malformed, res):
     res["structs"] = len(struct_names)
     sdefs = {s["name"]: s for s in env.order}
 
+    F = None
+    focus_s, focus_m, focus_reps = set(), set(), 0
+    if opts.get("marker") or opts.get("focus") or opts.get("shrink"):
+        import schema_c13_focus as F
+    if opts.get("focus"):
+        focus_s, focus_m = F.affected(env, opts["focus"])
+        focus_reps = opts.get("focus_reps", 6)
+        res["focus"] = {"structs": sorted(focus_s), "methods": len(focus_m)}
+    marker = bool(opts.get("marker"))
+
+    # the generated module defines exactly the structure classes the definition (with its imports) states
+    for n_, c_ in sorted(vars(mod).items()):
+        if isinstance(c_, type) and issubclass(c_, common.Structure) and c_.__module__ == mod.__name__ and n_ not in env.structs:
+            checks.append(("extraclass", "%s:%s:class" % (name, n_), len(lines), {"struct": n_}))
+
     for ci, cfg in enumerate(cfgs):
         st = mk_settings(cfg)
         cs = cfgs_str(cfg)
         # ---------------- structures
         for sname in struct_names:
-            for rep in range(per_item):
-                tree = gen.obj(sname, cfg)
+            trees = [(rep, gen.obj(sname, cfg)) for rep in range(per_item + (focus_reps if sname in focus_s else 0))]
+            if marker:
+                trees.append(("m", F.Marker(gen, start=ci).obj(sname, cfg)))
+            for rep, tree in trees:
                 ty = "S %d" % code(sname)
-                key = "%s:%s:%r:%d" % (name, sname, cfg, rep)
+                key = "%s:%s:%r:%s" % (name, sname, cfg, rep)
                 try:
                     obj = real.build(tree)
                     out = streams.StreamOut(st)
@@ -185,7 +207,10 @@ def _task(repo, name, cfgs, seed, per_item, exe, malformed, res):
         for p in env.protos:
             pname = p["name"]
             cname = make_class_name(pname, "Client"); sname_ = make_class_name(pname, "Server")
-            ccls, scls = getattr(mod, cname), getattr(mod, sname_)
+            ccls, scls = getattr(mod, cname, None), getattr(mod, sname_, None)
+            if ccls is None or scls is None:
+                checks.append(("noclass", "%s:%s:classes" % (name, pname), len(lines), {"proto": pname, "cfg": cfg, "missing": [c for c, x in ((cname, ccls), (sname_, scls)) if x is None]}))
+                continue
             for m in p["methods"]:
                 res["methods"] += 1 if ci == 0 else 0
                 if not m["supported"]:
@@ -201,11 +226,18 @@ def _task(repo, name, cfgs, seed, per_item, exe, malformed, res):
                         checks.append(("unsupported", "%s:%s.%s" % (name, pname, m["name"]), len(lines), {"r": r, "client_has": hasattr(ccls, m["name"])}))
                         res["unsupported_checked"] += 1
                     continue
-                for rep in range(per_item):
-                    key = "%s:%s.%s:%r:%d" % (name, pname, m["name"], cfg, rep)
-                    args = [gen.gen(v["type"], cfg, 0, False) for v in m["request"]]
-                    # a single result is isinstance-checked by the generated server, so it cannot be None
-                    rets = [gen.gen(v["type"], cfg, 0, len(m["response"]) == 1) for v in m["response"]]
+                mreps = list(range(per_item + (focus_reps if (pname, m["name"]) in focus_m else 0)))
+                if marker and (m["request"] or m["response"]): mreps.append("m")
+                for rep in mreps:
+                    key = "%s:%s.%s:%r:%s" % (name, pname, m["name"], cfg, rep)
+                    if rep == "m":
+                        mk = F.Marker(gen, start=ci + m["id"])
+                        args = [mk.val(v["type"], cfg, 0) for v in m["request"]]
+                        rets = [mk.val(v["type"], cfg, 0) for v in m["response"]]
+                    else:
+                        args = [gen.gen(v["type"], cfg, 0, False) for v in m["request"]]
+                        # a single result is isinstance-checked by the generated server, so it cannot be None
+                        rets = [gen.gen(v["type"], cfg, 0, len(m["response"]) == 1) for v in m["response"]]
                     rec = {}
                     try:
                         rargs = [real.build_typed(v["type"], t) for v, t in zip(m["request"], args)]
@@ -248,23 +280,34 @@ def _task(repo, name, cfgs, seed, per_item, exe, malformed, res):
         if outs[i] != "ok":
             raise RuntimeError("driver rejected schema line %d: %r -> %r" % (i, lines[i][:200], outs[i]))
 
+    kept = {}
     def diff(key, what, detail):
-        if len(res["diffs"]) < 40:
+        # structure-level and method-level differences are capped separately (a wrong structure drags along every
+        # method that carries it; the structure itself must not be crowded out)
+        grp = "s" if "struct" in detail else "m"
+        if kept.get(grp, 0) < 40:
+            kept[grp] = kept.get(grp, 0) + 1
             d = {"key": key, "what": what}
             d.update(detail)
+            if "_tree" in d and not (opts.get("shrink") and grp == "s"): del d["_tree"]
             res["diffs"].append(d)
         res["ndiffs"] = res.get("ndiffs", 0) + 1
 
     for kind, key, i0, pl in checks:
         res["cases"] += 1
-        if kind == "struct":
+        if kind == "extraclass":
+            diff(key, "generated module defines a structure class %s that the definition does not state" % pl["struct"], {"module": name, "struct": pl["struct"]})
+        elif kind == "noclass":
+            diff(key, "generated module has no %s for protocol %s of the definition" % (" / ".join(pl["missing"]), pl["proto"]),
+                 {"module": name, "protocol": pl["proto"], "method": "*", "cfg": list(pl["cfg"])})
+        elif kind == "struct":
             sname = pl["struct"]
             menc, mvis = outs[i0], outs[i0 + 1]
             tag("struct:" + ("hdr" if pl["cfg"][1] else "nohdr") + ":" + menc.split(" ")[0])
             base = {"module": name, "struct": sname, "cfg": list(pl["cfg"]), "value": SV.to_val(pl["tree"])}
             if menc != pl["renc"]:
                 diff(key, "bytes of generated %s.save differ from the interpreter of the definition" % sname,
-                     dict(base, real=pl["renc"][:4000], model=menc[:4000]))
+                     dict(base, real=pl["renc"][:4000], model=menc[:4000], _tree=pl["tree"], save_diff=True))
                 continue
             if "dec" in pl:
                 mdec = outs[i0 + 2]
@@ -375,6 +418,62 @@ def _task(repo, name, cfgs, seed, per_item, exe, malformed, res):
             if len(res["samples"]) < 3 and len(mreq) < 160 and len(m["request"]) > 0:
                 res["samples"].append({"module": name, "method": pl["proto"] + "." + m["name"], "cfg": list(pl["cfg"]), "args": base["args"][:160], "request": mreq[:160]})
             res["keys"].append(key)
+
+    # ---------------- shrink the structure-level differences to the attributes that matter (violation path only)
+    if opts.get("shrink"):
+        sd = [d for d in res["diffs"] if d.get("save_diff") and "_tree" in d]
+        inner = F.innermost(env, {d["struct"] for d in sd})
+        done = set()
+        protodir = os.path.join(repo, "nintendo/files/proto")
+        tenv = None
+        if opts.get("focus") and opts["focus"].get("theirs"):
+            tenv = F.theirs_env(protodir, name, opts["focus"]["theirs"])
+        for d in sorted(sd, key=lambda d: (d["struct"] not in inner, d["cfg"])):
+            if d["struct"] in done or len(done) >= 3: continue
+            done.add(d["struct"])
+            cfg = tuple(d["cfg"]); st = mk_settings(cfg); ty = "S %d" % code(d["struct"])
+            def enc_real(tree):
+                try:
+                    out = streams.StreamOut(st); out.add(real.build(tree)); return "ok " + SV.hx(out.get())
+                except Exception as e:
+                    return "err " + exc_name(e)
+            def enc_model(tree, e=env):
+                return driver_batch(exe, e.driver_lines() + ["enc %s %s %s" % (cfgs_str(cfg), ty, SV.to_val(tree))])[-1]
+            try:
+                small, need = F.shrink_struct(gen, d["struct"], cfg, d["_tree"], lambda t: enc_real(t) != enc_model(t))
+                r, m_ = enc_real(small), enc_model(small)
+                d["shrunk"] = {"value": SV.to_val(small), "attributes_not_zero": need, "readable": render(gen, small, True),
+                               "real": r[:2000], "definition": m_[:2000]}
+                if r.startswith("ok ") and m_.startswith("ok "):
+                    d["shrunk"]["first_differing_offset"] = F.first_diff_offset(r[3:], m_[3:])
+                if tenv is not None:
+                    d["shrunk"]["generated_code_equals_repository_readers_layout"] = (enc_model(small, tenv) == r)
+                d["what"] += " (attributes that matter: %s)" % (", ".join(need) or "none: differs on the all-zero instance")
+            except Exception as e:
+                d["shrunk"] = {"error": repr(e)}
+    for d in res["diffs"]:
+        d.pop("_tree", None)
+
+
+def render(gen, t, top=False):
+    """readable form of a (small) value tree: attribute names instead of positions; zero attributes of the top object left out"""
+    k = t[0]
+    if k == "none": return None
+    if k in ("int", "bool", "str", "url"): return t[1]
+    if k == "bytes": return "hex:" + t[1].hex()
+    if k in ("f32", "f64", "dbl"): return "ieee-bits:%d" % t[1]
+    if k == "dt": return "datetime:%d" % t[1]
+    if k == "list": return [render(gen, x) for x in t[1]]
+    if k == "map": return [[render(gen, a), render(gen, b)] for a, b in t[1]]
+    if k == "obj":
+        flds = gen.fields(t[1])
+        out = {"__class__": t[1]}
+        import schema_c13_focus as F
+        for (v, _), ft in zip(flds, t[2]):
+            if top and ft == F.zero(gen, v["type"], (0, 0, 4)): continue
+            out[v["name"]] = render(gen, ft)
+        return out
+    return repr(t)
 
 
 def make_class_name(name, type):
